@@ -353,9 +353,16 @@ def rule_E5_constructors(ctx, typer):
                     n += 1
                     gs = cfg.guards_of(node)
                     if t.attr == "parent":
+                        from .rules.common import none_test as _nt
+                        only_not_none = bool(gs) and all(_nt(c) is not None and _nt(c)[0] == "parent" and (_nt(c)[1] is True) != (outcome is True)
+                                                        for c, outcome, _ in gs)
                         if isinstance(s.value, ast.Name) and s.value.id == "parent" and not gs:
                             parent_ok = True
                             ctx.inst("E5c", func, s, "unconditional self.parent = parent")
+                        elif isinstance(s.value, ast.Name) and s.value.id == "parent" and only_not_none:
+                            # skipped only for `parent is None`: assigning None to the parent of a node that has none is a no-op
+                            parent_ok = True
+                            ctx.inst("E5c", func, s, "self.parent = parent unless parent is None (a no-op on a fresh node)")
                         else:
                             ctx.viol("E5c", func, s, "constructor does not simply assign the parent argument "
                                      "(unconditionally, unchanged) to self.parent")
@@ -391,6 +398,28 @@ def rule_H6(ctx, hook_event_sites):
     the default implementations are empty"""
     n = 0
     allowed = set(hook_event_sites)  # ids of ast statements
+    from .newoptions import load_signatures
+    pinned = load_signatures()
+
+    def new_api(func):
+        """a public method that does not exist at the pinned commit and that nothing else in the package uses: new API, not
+        part of what the property is stated for (it is judged as soon as an existing member calls it)"""
+        top = func
+        while getattr(top, "outer", None) is not None:
+            top = top.outer
+        if top.cls is None or top.srcname.startswith("_") or top.kind != "method":
+            return False
+        if "%s.%s" % (top.cls.name, top.srcname) in pinned.get(top.module.relpath, {}):
+            return False
+        for g in ctx.p.all_funcs:
+            if g is top:
+                continue
+            for x in walk_own(g.node):
+                if isinstance(x, ast.Attribute) and x.attr == top.srcname:
+                    return False
+                if isinstance(x, ast.Constant) and x.value == top.srcname:
+                    return False
+        return True
     for func in ctx.p.all_funcs:
         for node in walk_own(func.node):
             if isinstance(node, ast.Call) and isinstance(node.func, ast.Attribute) and node.func.attr in T.HOOKS:
@@ -398,6 +427,8 @@ def rule_H6(ctx, hook_event_sites):
                 # find the enclosing statement
                 if id(node) in allowed or any(id(s) in allowed for s in _enclosing_stmts(func, node)):
                     ctx.inst("H6", func, node, "hook call site exercised by the entry-point traces")
+                elif new_api(func):
+                    ctx.notes.append("H6: %s is a new public method unused by the package; its hook calls are outside the stated entry points" % func.qual)
                 else:
                     ctx.viol("H6", func, node, "notification hook called outside the attach/detach protocol of the "
                              "structural entry points")
